@@ -46,6 +46,32 @@ func c12GobFingerprint(x ap.Item, b []byte, err error) string {
 	return fmt.Sprintf("%d bytes (not decodable)", len(b))
 }
 
+// c12Twin is a deep copy of x with every language list and every item list of every node in reverse order.
+func c12Twin(x ap.Item) ap.Item {
+	y := vocab.CloneItem(x)
+	vocab.Walk(y, 0, func(path string, depth int, node reflect.Value) {
+		if !node.CanSet() {
+			return
+		}
+		for _, f := range vocab.Fields(node.Type()) {
+			fv := node.Field(f.Index)
+			switch f.Kind {
+			case vocab.KNLV:
+				n := fv.Interface().(ap.NaturalLanguageValues)
+				for i, j := 0, len(n)-1; i < j; i, j = i+1, j-1 {
+					n[i], n[j] = n[j], n[i]
+				}
+			case vocab.KItems:
+				l := fv.Interface().(ap.ItemCollection)
+				for i, j := 0, len(l)-1; i < j; i, j = i+1, j-1 {
+					l[i], l[j] = l[j], l[i]
+				}
+			}
+		}
+	})
+	return y
+}
+
 var c12Ops = []c12Op{
 	{"MarshalJSON(pkg)", func(x ap.Item) string { return c12Fingerprint(ap.MarshalJSON(x)) }},
 	{"MarshalJSON(method)", func(x ap.Item) string {
@@ -70,6 +96,18 @@ var c12Ops = []c12Op{
 		return "n/a"
 	}},
 	{"ItemsEqual(x,x)", func(x ap.Item) string { return fmt.Sprint(ap.ItemsEqual(x, x)) }},
+	// comparing with another value that says the same in another order (language entries and list members reversed) reads both sides:
+	// neither is changed by it.  x is watched by the battery, the twin here.
+	{"ItemsEqual(x,twin)", func(x ap.Item) string {
+		twin := c12Twin(x)
+		snap := vocab.Clone(twin)
+		r1 := ap.ItemsEqual(x, twin)
+		r2 := ap.ItemsEqual(twin, x)
+		if d := vocab.ExactDiff(snap, twin); len(d) > 0 {
+			return fmt.Sprintf("%v %v the twin changed: %s", r1, r2, strings.Join(d, "; "))
+		}
+		return fmt.Sprint(r1, r2)
+	}},
 	{"Format", func(x ap.Item) string {
 		s := fmt.Sprintf("%s|%v|%q|%+v", x, x, x, x)
 		if strings.Contains(s, "0xc0") {
